@@ -534,6 +534,7 @@ void ts_tree_cursor_current_status(
   *has_later_siblings = false;
   *has_later_named_siblings = false;
   *can_have_later_siblings_with_this_field = false;
+  bool in_extra = false;
 
   // Walk up the tree, visiting the current node and its invisible ancestors,
   // because fields can refer to nodes through invisible *wrapper* nodes,
@@ -604,7 +605,11 @@ void ts_tree_cursor_current_status(
 
     #undef subtree_symbol
 
-    if (!ts_subtree_extra(*entry->subtree)) {
+    // An extra node is not part of its parent's production, so neither it
+    // nor the hidden nodes it is wrapped in give it a field.
+    if (ts_subtree_extra(*entry->subtree)) in_extra = true;
+
+    if (!in_extra) {
       const TSFieldMapEntry *field_map, *field_map_end;
       ts_language_field_map(
         self->tree->language,
